@@ -1,6 +1,7 @@
 import BoltonsVerif.C06.Model
 import BoltonsVerif.C06.Tables
 import BoltonsVerif.C06.Proofs
+import BoltonsVerif.C06.Props
 import BoltonsVerif.Generated.Src_urlutils_quote
 /-
 C06 — SOURCE TIE (round 3e): the quoting functions of `boltons/urlutils.py`, translated from the source text on every
@@ -394,5 +395,41 @@ theorem src_unquote_eq_model (s : Text) : Src.urlutils.unquote s = C06.unquote s
 example : Src.urlutils.unquote [37, 99, 51, 37, 97, 57, 233, 37, 52, 49] = [233, 233, 65] := by decide +kernel
 example : Src.urlutils.unquote [97, 233, 43] = [97, 233, 43] := by decide +kernel
 example : Src.urlutils.unquote [37, 101, 57] = [65533] := by decide +kernel
+
+/-! ## the chain closed: the property theorems of `C06/Props.lean`, restated about the GENERATED definitions
+
+(source text → `Src.urlutils.*` → model → property).  Each is the model-level theorem rewritten with the ties. -/
+
+/-- `unquote_to_bytes` on an ASCII str (what `unquote` hands it) is the model function as stated, and the reference
+    percent-decoder -/
+theorem src_unquote_to_bytes_ascii (s : Text) (h : ∀ x ∈ s, x < 128) :
+    Src.urlutils.unquote_to_bytes s = unqBytes s ∧ Src.urlutils.unquote_to_bytes s = unqSpec s := by
+  rw [src_unquote_to_bytes_eq_model, utf8_ascii s h]
+  exact ⟨rfl, unqBytes_eq_spec s⟩
+
+/-- `unquote(quote_path_part(s)) == NFC(s)` about the translated source (and likewise for the three other parts) -/
+theorem src_unquote_quote_roundtrip (nfc : Text → Text) (s : Text) (hs : ∀ x ∈ nfc s, isScalar x = true) :
+    Src.urlutils.unquote (Src.urlutils.quote_path_part nfc s true) = nfc s
+    ∧ Src.urlutils.unquote (Src.urlutils.quote_query_part nfc s true) = nfc s
+    ∧ Src.urlutils.unquote (Src.urlutils.quote_fragment_part nfc s true) = nfc s
+    ∧ Src.urlutils.unquote (Src.urlutils.quote_userinfo_part nfc s true) = nfc s := by
+  simp only [src_unquote_eq_model, src_quote_path_part_eq_model, src_quote_query_part_eq_model,
+    src_quote_fragment_part_eq_model, src_quote_userinfo_part_eq_model]
+  exact ⟨unquote_quote .path nfc s hs, unquote_quote .query nfc s hs, unquote_quote .fragment nfc s hs,
+    unquote_quote .userinfo nfc s hs⟩
+
+/-- minimal quoting is undone by `unquote` for every text without `%`, about the translated source -/
+theorem src_unquote_quote_min_roundtrip (nfc : Text → Text) (s : Text) (hs : 37 ∉ s) :
+    Src.urlutils.unquote (Src.urlutils.quote_path_part nfc s false) = s
+    ∧ Src.urlutils.unquote (Src.urlutils.quote_query_part nfc s false) = s
+    ∧ Src.urlutils.unquote (Src.urlutils.quote_fragment_part nfc s false) = s
+    ∧ Src.urlutils.unquote (Src.urlutils.quote_userinfo_part nfc s false) = s := by
+  simp only [src_unquote_eq_model, src_quote_path_part_eq_model, src_quote_query_part_eq_model,
+    src_quote_fragment_part_eq_model, src_quote_userinfo_part_eq_model]
+  exact ⟨unquote_quote_min .path nfc s hs, unquote_quote_min .query nfc s hs, unquote_quote_min .fragment nfc s hs,
+    unquote_quote_min .userinfo nfc s hs⟩
+
+example : Src.urlutils.unquote (Src.urlutils.quote_query_part id [97, 59, 38, 61, 43, 37, 32, 233, 0x1F600] true)
+    = [97, 59, 38, 61, 43, 37, 32, 233, 0x1F600] := by decide +kernel
 
 end C06
